@@ -393,6 +393,19 @@ func runC14(c *Ctx) {
 	}
 	c.Floor(r3, 10)
 
+	// validator-loops-exhaustive: the validators look at every byte and every component
+	const r3b = "validator-loops-exhaustive"
+	if validRef != nil {
+		LoopsExhaustive(c, r3b, validRef)
+	}
+	if isSafe := p.Func("plumbing.ReferenceName.IsSafe"); isSafe != nil {
+		sinfo := isSafe.Pkg.TypesInfo
+		LoopsExhaustiveRej(c, r3b, isSafe, func(r *ast.ReturnStmt) bool {
+			return len(r.Results) == 1 && constBool(sinfo, r.Results[0]) == "false"
+		})
+	}
+	c.Floor(r3b, 2)
+
 	// storage layer: ReferenceStorage / ReflogStorage do not touch the filesystem themselves
 	const r4 = "storage-layer"
 	n4 := 0
